@@ -599,14 +599,14 @@ pub fn run(mode: Mode) {
         ctx.finish();
     }
     let quick = ctx.quick();
-    // seed rotates which extra op gets its complete 65 536-pair table in the quick tier (MUL always)
+    // quick tier: complete 65 536-pair tables for every op with (R0,R1); the seed rotates which op also gets the same-register pair (R2,R2)
     let rot_ops = [0x6u8, 0x7, 0x8, 0x9, 0xA, 0xC, 0xD];
     let extra = rot_ops[(ctx.seed as usize) % rot_ops.len()];
     let mut groups = vec![];
     for op in [0x6u8, 0x7, 0x8, 0x9, 0xA, 0xB, 0xC, 0xD] {
         for rd in 0..4u8 {
             for rs in 0..4u8 {
-                let full = !quick || ((op == 0xB || op == extra) && rd == 0 && rs == 1);
+                let full = !quick || (rd == 0 && rs == 1) || (op == extra && rd == 2 && rs == 2);
                 groups.push(Group::G1(op, rd, rs, full));
             }
         }
@@ -663,7 +663,7 @@ pub fn run(mode: Mode) {
     ctx.set("traces_validated_against_impl", st.evals - skipped);
     ctx.set("rule", "per-instruction: every point of the products G1 (reg-reg ALU ops x 16 register pairs x value pairs x carry-in, PC operands by placement), G2 (every other one-byte opcode x 256 values x 16 flags x upper FR bits x 4 SPs), G3 (16 first bytes x second bytes 0x00-0x7F x pointer-set^2 x placements x memory variants x flags); G4: every sequence of the alphabet up to the depth from 3 start states, compared after every instruction; G5: code executing out of the I/O page (every byte pair in the input registers FC/FD executed at PC=0xFC, every byte on the board input port executed at PC=0xF0), four instructions each; G6: the repository's programs, assembled by REF-ASM, in lock-step for up to 1 500 / 20 000 instructions under 3 input settings. A case is non-trivial when the instruction changed more than the PC (sequences: ran to completion in lock-step).");
     ctx.set("exhaustive", true);
-    ctx.set("bounds", format!("tier={}; G1 value pairs: {}; sequence depth {} ({} sequences, {} instructions)", if quick { "quick" } else { "thorough" }, if quick { "boundary set^2 + complete 65536x2 tables for MUL and one rotated op" } else { "all 65536 pairs x carry-in for all 8 ops" }, depth, nseq, instr));
+    ctx.set("bounds", format!("tier={}; G1 value pairs: {}; sequence depth {} ({} sequences, {} instructions)", if quick { "quick" } else { "thorough" }, if quick { "boundary set^2 for every register pair + complete 65536x2 tables for all 8 ops with (R0,R1) and for one rotated op with (R2,R2)" } else { "all 65536 pairs x carry-in for all 8 ops" }, depth, nseq, instr));
     let mut sk = Json::obj();
     for (k, v) in &st.skipped {
         sk.set(k, *v);
